@@ -263,13 +263,16 @@ fn run(input: &Tree) -> Option<Tree> {
                     PushInstruction::push_int(2),
                 ];
                 let d = instrs.clone().into_distribution().ok()?;
-                let pl: Plushy = match rng.next() % 3 {
+                let mode = rng.next() % 3;
+                let pl: Plushy = match mode {
                     0 => d.into_gene_generator_with_close_probability(0.0).to_collection_generator(size).sample(&mut rng),
                     1 => d.into_gene_generator().to_collection_generator(size).sample(&mut rng),
                     _ => d.into_gene_generator_with_close_probability(0.9).to_collection_generator(size).sample(&mut rng),
                 };
+                // with close probability 0 the gene generator never yields a close marker: every gene of the genome is
+                // a draw of that generator, also the last ones while blocks are still open
                 let ok = pl.get_genes().iter().all(|g| match g {
-                    push::genome::plushy::PushGene::Close => true,
+                    push::genome::plushy::PushGene::Close => mode != 0,
                     push::genome::plushy::PushGene::Instruction(i) => instrs.contains(i),
                 });
                 (pl.get_genes().len(), ok)
@@ -282,6 +285,25 @@ fn run(input: &Tree) -> Option<Tree> {
                 let pop: Vec<EcIndividual<Vec<i64>, TestResults<Score<i64>>>> = ig.into_collection_generator(size).sample(&mut rng);
                 let ok = pop.iter().all(|i| i.genome.len() == 3 && i.genome.iter().all(|x| alpha.contains(x)) && i.test_results.total_result.0 == i.genome.iter().sum::<i64>());
                 (pop.len(), ok)
+            }
+            12 => {
+                // WIDE elements (8 KiB each): a fill that works in byte-sized slabs must still deliver all of them
+                #[derive(Clone)]
+                struct Wide([u64; 1024]);
+                struct WideGen;
+                impl Distribution<Wide> for WideGen {
+                    fn sample<R: rand::Rng + ?Sized>(&self, rng: &mut R) -> Wide {
+                        let mut w = [0u64; 1024];
+                        w[0] = rng.next_u64();
+                        w[1023] = w[0] ^ 0x5555;
+                        Wide(w)
+                    }
+                }
+                if size > 300 {
+                    return None;
+                }
+                let v: Vec<Wide> = WideGen.into_collection_generator(size).sample(&mut rng);
+                (v.len(), v.iter().all(|w| w.0[1023] == w.0[0] ^ 0x5555))
             }
             9 => {
                 // zero-sized elements: `Vec<()>` reports an unbounded capacity
@@ -348,11 +370,14 @@ fn gen(tier: &str, rng: &mut Sm) -> Gen {
             }
         }
     }
+    for size in [0usize, 1, 2, 3, 17, 200] {
+        g.inputs.push(tl![a(rng.next() >> 1), au(3), tl![A(12), au(size), tv(&[])]]);
+    }
     // random bitstrings: pairs of positions a half-word / a word / a byte apart, and the requested probability
     for (size, i, j) in [(70usize, 0usize, 32usize), (70, 3, 35), (200, 64, 96), (200, 100, 164), (130, 1, 9), (40, 7, 39), (129, 63, 127), (129, 0, 128)] {
         g.inputs.push(tl![a(rng.next() >> 1), au(n), tl![A(10), au(size), au(i), au(j)]]);
     }
-    for (num, den) in [(0u64, 1u64), (1, 1), (3602879701896397, 1 << 55), (1, 256), (255, 256), (1, 1 << 20), (5404319552844595, 1 << 54)] {
+    for (num, den) in [(0u64, 1u64), (1, 1), (3602879701896397, 1 << 55), (1, 256), (255, 256), (1, 1 << 20), (5404319552844595, 1 << 54), (1, 1 << 60), (1, 1 << 62), ((1 << 52) - 1, 1 << 52)] {
         g.inputs.push(tl![a(rng.next() >> 1), au(n / 10), tl![A(11), au(100), a(num as i128), a(den as i128)]]);
     }
     // zero-sized elements and members
